@@ -423,6 +423,17 @@ def gen_history(rng, n, clean, copy_ok):
                     mir.names.discard(old)
                 mir.names.add(new)
             script.append({"k": "status", "s": s, "name": new})
+        elif r < 0.98:
+            # RENAME INBOX onto an EXISTING name (refused by raven), then additions to both
+            cands = sorted(mir.names - {"INBOX", "Sent", "Drafts"})
+            if not cands:
+                continue
+            tgt = rng.choice(cands)
+            script.append({"k": "rename", "s": s, "old": rng.choice(["INBOX", "inbox"]), "new": tgt})
+            script.append({"k": "append", "s": s, "folder": tgt, "flags": []})
+            script.append({"k": "deliver", "folder": "INBOX"})
+            script.append({"k": "status", "s": s, "name": tgt})
+            mir.add(tgt)
         else:
             nm = existing()
             script.append({"k": "status", "s": s, "name": nm})
@@ -463,6 +474,102 @@ def run_scripts(scripts, workers=12):
     return scens
 
 
+def rename_inbox_family():
+    """RENAME INBOX onto an EXISTING name, in every relation between the two
+    mailboxes that matters for UIDs: target never used / used and emptied
+    (STORE \\Deleted + EXPUNGE) / non-empty, with k messages ever added to it, and
+    i messages in INBOX (so uid_next of INBOX is below, equal to or above the
+    target's), followed by APPEND / delivery into both and a look at both.
+    raven refuses such a RENAME; a change that lets it through must keep the
+    target's UIDs and UIDNEXT intact. Returns [(label, script)]."""
+    out = []
+    for target in ("A", "Trash"):
+        for tstate, k in (("fresh", 0), ("emptied", 1), ("emptied", 3), ("nonempty", 1), ("nonempty", 3)):
+            for i in (0, 1, 2, 4):
+                sc = []
+                if target == "A":
+                    sc.append({"k": "create", "s": "c1", "name": "A"})
+                for _ in range(k):
+                    sc.append({"k": "append", "s": "c2", "folder": target, "flags": []})
+                if tstate == "emptied":
+                    sc += [{"k": "select", "s": "c2", "name": target},
+                           {"k": "uidstore", "s": "c2", "set": [["range", 1, k]], "mode": "+", "flags": ["\\Deleted"]},
+                           {"k": "expunge", "s": "c2"},
+                           {"k": "status", "s": "c2", "name": target}]
+                for n in range(i):
+                    sc.append({"k": "append", "s": "c1", "folder": "INBOX", "flags": []} if n % 2 == 0 else {"k": "deliver", "folder": "INBOX"})
+                sc += [{"k": "rename", "s": "c1", "old": "INBOX" if (i + k) % 2 == 0 else "inbox", "new": target},
+                       {"k": "status", "s": "c1", "name": target},
+                       {"k": "status", "s": "c1", "name": "INBOX"},
+                       {"k": "append", "s": "c1", "folder": target, "flags": []},
+                       {"k": "deliver", "folder": "INBOX"},
+                       {"k": "append", "s": "c2", "folder": "INBOX", "flags": []},
+                       {"k": "append", "s": "c2", "folder": target, "flags": []},
+                       {"k": "status", "s": "c1", "name": target},
+                       {"k": "select", "s": "c1", "name": target},
+                       {"k": "uidfetch", "s": "c1"},
+                       {"k": "select", "s": "c2", "name": "INBOX"},
+                       {"k": "uidfetch", "s": "c2"}]
+                out.append(("rename_inbox_onto_existing:%s:%s:k=%d:i=%d" % (target, tstate, k, i), sc))
+    return out
+
+
+def unclassified_violation(sc, ev):
+    """First observed violation of the property in an evaluated scenario that no
+    listed class accounts for: text, or None."""
+    d, ci, cc, flat, mspec = ev
+    if sc.viol:
+        j, kind, detail = sc.viol[0]
+        if not (ci >= 0 and ci <= j and CLASS_NAMES.get(cc)):
+            return "%s after step %d (%s): %s" % (kind, j, json.dumps(sc.script[sc.step_of[j]]), detail)
+    if sc.proto:
+        return "protocol answer disagrees with the store at script step %d: %s" % sc.proto[0]
+    return None
+
+
+_family_cache = {}
+
+
+def search_failing_input(sc, d):
+    """After a model/implementation difference without an observed violation:
+    look (implementation + observation-only spec) for a history that violates
+    the property itself. Neighbourhood: the differing history cut after the
+    differing step and continued with APPEND/delivery into every mailbox it
+    names, and the structured families. Returns (script, text, label) or None."""
+    cands = []
+    cut = sc.step_of[d] + 1 if d < len(sc.step_of) else len(sc.script)
+    prefix = [st for st in sc.script[:cut]]
+    names = ["INBOX"]
+    for st in prefix:
+        for key in ("folder", "dest", "name", "new", "old"):
+            v = st.get(key)
+            if v and v.upper() != "INBOX" and v not in names and v not in ("Sent", "Drafts"):
+                names.append(v)
+    follow = []
+    for rnd in range(2):
+        for nm in names:
+            follow.append({"k": "append", "s": "c1", "folder": nm, "flags": []})
+        follow.append({"k": "deliver", "folder": "INBOX"})
+    for nm in names:
+        follow.append({"k": "status", "s": "c1", "name": nm})
+    cands.append(("continuation of the differing history", prefix + follow))
+    if "family" not in _family_cache:
+        _family_cache["family"] = rename_inbox_family()
+    cands += _family_cache["family"]
+    scens = run_scripts([s for _, s in cands])
+    ok = [(lab, x) for (lab, _), x in zip(cands, scens) if not x.trouble]
+    if not ok:
+        return None
+    evs, log = evaluate([x for _, x in ok], PID + "_search")
+    if evs is None:
+        return None
+    for (lab, x), ev in zip(ok, evs):
+        what = unclassified_violation(x, ev)
+        if what:
+            return x.script, what, lab
+    return None
+
+
 def judge(chk, sc, ev, origin, stats):
     """Apply the decision rule to one evaluated scenario."""
     d, ci, cc, flat, mspec = ev
@@ -486,13 +593,27 @@ def judge(chk, sc, ev, origin, stats):
             stats["known"][cname] = stats["known"].get(cname, 0) + 1
         else:
             chk.violation(what, payload)
+            stats["real"] = stats.get("real", 0) + 1
     for (i, detail) in sc.proto[:2]:
         chk.violation("protocol answer disagrees with the store at script step %d: %s" % (i, detail), payload)
+        stats["real"] = stats.get("real", 0) + 1
     if d >= 0:
         stats["diff"] += 1
         unclassified = first_v is not None and not (ci >= 0 and ci <= first_v[0])
         if not unclassified and not sc.proto:
             step = sc.script[sc.step_of[d]] if d < len(sc.step_of) else None
+            if stats.get("real"):
+                # a failing input of the property itself is already written out in this run
+                stats["more"] = stats.get("more", 0) + 1
+                return
+            found = None if stats.get("searches", 0) >= 3 else search_failing_input(sc, d)
+            stats["searches"] = stats.get("searches", 0) + 1
+            if found:
+                fscript, fwhat, flabel = found
+                chk.violation("%s  [failing input found by the search (%s) after model and implementation differed at step %d %s]" % (fwhat, flabel, d, json.dumps(step)),
+                              {"suite": "uidhist", "origin": "search:" + flabel, "script": fscript, "differing_history": sc.script})
+                stats["real"] = stats.get("real", 0) + 1
+                return
             chk.broken_obligation("correspondence uidhist no longer checks: model (Model/Ops.v) and implementation differ after step %d %s (tables mailboxes/message_mailbox or reply class); no violation of the property itself was observed in this history" % (d, json.dumps(step)),
                                   dict(payload, model_step=d, model_op=sc.model_ops[d] if d < len(sc.model_ops) else None,
                                        observed=sc.obs_steps[d] if d < len(sc.obs_steps) else None))
@@ -547,7 +668,9 @@ def run(chk):
     n_eval = sum(len(sc.model_ops) for sc in scens)
     # ---- 2. random histories
     n_rand, n_clean, length = (40, 24, 22) if quick else (700, 300, 40)
-    scripts = [("random", gen_history(chk.rng, length, False, copy_ok)) for _ in range(n_rand)]
+    fam = rename_inbox_family()
+    scripts = list(fam) if not quick else chk.rng.sample(fam, 10)       # structured family first
+    scripts += [("random", gen_history(chk.rng, length, False, copy_ok)) for _ in range(n_rand)]
     scripts += [("clean", gen_history(chk.rng, length, True, copy_ok)) for _ in range(n_clean)]
     kinds = {}
     adds = 0
@@ -589,6 +712,7 @@ def run(chk):
     chk.cov["disagreements_checked"] = stats["diff"]
     chk.cov["ops_by_kind"] = kinds
     chk.cov["plain_copy_reachable"] = copy_ok
+    chk.cov["rename_inbox_onto_existing_histories"] = len(fam) if not quick else 10
     chk.cov["clean_histories"] = stats["clean"]
     chk.cov["clean_histories_spec_holds_on_impl"] = stats["clean_ok"]
     chk.cov["known_class_hits"] = stats["known"]
